@@ -119,10 +119,11 @@ run_wk_case(char *line, FILE *out) {
   if (strcmp(filt, "~")) {
     size_t flen;
     uint8_t *fb = vf_unhex(filt, strlen(filt), &flen);
-    filter = coap_new_string(flen); /* NUL-terminated like coap_get_query()'s result */
-    memcpy(filter->s, fb, flen);
+    /* coap_print_wellknown() is public and takes any coap_string_t: length-delimited, no
+     * terminator promised - the bytes live in an exact-size block of their own */
+    filter = (coap_string_t *)coap_malloc_type(COAP_STRING, sizeof(coap_string_t));
+    filter->s = fb;
     filter->length = flen;
-    free(fb);
   }
   if (reslist && strcmp(reslist, "-")) {
     char *rs = NULL, *r;
@@ -220,7 +221,9 @@ run_wk_case(char *line, FILE *out) {
   free(blens);
 done:
   free(full);
-  if (filter)
-    coap_delete_string(filter);
+  if (filter) {
+    free(filter->s);
+    coap_free_type(COAP_STRING, filter);
+  }
   coap_delete_all_resources(wk_ctx);
 }
